@@ -58,23 +58,31 @@ def translate():
             import difflib
             d = [l for l in difflib.unified_diff(open(cur).read().splitlines(), open(tmp).read().splitlines(), lineterm='', n=0) if l[:1] in '+-' and not l.startswith(('+++', '---'))]
             broken.append('BROKEN tables-changed (theorems about the generated tables would have to be re-proved): ' + ' | '.join(x[:120] for x in d[:4]))
-        tl = os.path.join(VERIF, 'tools', 'translate_lex.py')
-        if os.path.exists(tl):
-            tmp2 = os.path.join(CACHE, 'LexTables-alt-%s.v' % ALT_TAG)
+        for script, gen, label in (('translate_lex.py', 'LexTables', 'lexical tables'), ('translate_fmt.py', 'FmtTables', 'fmt: formatter method bodies')):
+            tl = os.path.join(VERIF, 'tools', script)
+            if not os.path.exists(tl):
+                continue
+            tmp2 = os.path.join(CACHE, '%s-alt-%s.v' % (gen, ALT_TAG))
             rc2, out2 = sh(['python3', tl, '--repo', REPO, '--out', tmp2])
             broken += [l for l in out2.splitlines() if l.startswith('BROKEN')]
-            cur2 = os.path.join(COQ, 'theories', 'Gen', 'LexTables.v')
+            cur2 = os.path.join(COQ, 'theories', 'Gen', gen + '.v')
             def differs():
                 return os.path.exists(tmp2) and os.path.exists(cur2) and open(tmp2).read() != open(cur2).read()
             if differs() and (time.sleep(3) or differs()):       # re-read once: a concurrent main-mode run may be rewriting the shared file
-                broken.append('BROKEN lexical tables changed (theorems about the generated lexical tables would have to be re-proved)')
+                if gen == 'FmtTables':
+                    import difflib
+                    d = [l for l in difflib.unified_diff(open(cur2).read().splitlines(), open(tmp2).read().splitlines(), lineterm='', n=0) if l[:1] in '+-' and not l.startswith(('+++', '---'))]
+                    broken.append('BROKEN fmt:tables-changed (Proofs/SerFmt.v would have to be re-proved against the translated method bodies): ' + ' | '.join(x[:140] for x in d[:4]))
+                else:
+                    broken.append('BROKEN lexical tables changed (theorems about the generated lexical tables would have to be re-proved)')
         return broken, out
     rc, out = sh(['python3', os.path.join(VERIF, 'tools', 'translate.py'), '--repo', REPO])
     broken = [l for l in out.splitlines() if l.startswith('BROKEN')]
-    if os.path.exists(os.path.join(VERIF, 'tools', 'translate_lex.py')):
-        rc2, out2 = sh(['python3', os.path.join(VERIF, 'tools', 'translate_lex.py'), '--repo', REPO])
-        broken += [l for l in out2.splitlines() if l.startswith('BROKEN')]
-        out += out2
+    for script in ('translate_lex.py', 'translate_fmt.py'):
+        if os.path.exists(os.path.join(VERIF, 'tools', script)):
+            rc2, out2 = sh(['python3', os.path.join(VERIF, 'tools', script), '--repo', REPO])
+            broken += [l for l in out2.splitlines() if l.startswith('BROKEN')]
+            out += out2
     return broken, out
 
 def build_model(targets=None):
@@ -322,7 +330,7 @@ def tie_relevant(pid, broken_line):
         return False
     m = re.match(r'BROKEN\s+([A-Za-z0-9_-]+)', broken_line)
     item = m.group(1) if m else ''
-    if item in SER_ITEMS:
+    if item in SER_ITEMS or item.startswith('fmt') or broken_line.startswith('BROKEN fmt:'):
         return pid in SER_PROPS
     if item.startswith('lexical') or 'lexical' in broken_line or item.upper().startswith('LEX') or item.startswith('BASE10') or item.startswith('POW5') or item.startswith('F32_') or item.startswith('F64_'):
         return pid in LEX_PROPS
